@@ -216,6 +216,10 @@ Definition prec (g : gram) (hp : nat) (e : cexpr) : nat :=
   | ECond _ _ _ => g_cond g
   end.
 
+(* not the type name of the cast *)
+Definition not_double (g : gram) (e : cexpr) : bool :=
+  negb (g_cast g && match e with EAtom w => bytes_eqb w W_double | _ => false end).
+
 (* every operand offers at least the precedence its position demands *)
 Fixpoint wf_prec (g : gram) (hp : nat) (e : cexpr) : bool :=
   match e with
@@ -239,7 +243,7 @@ Fixpoint wf_prec (g : gram) (hp : nat) (e : cexpr) : bool :=
   | ECond a b c =>
       Nat.leb (S (g_cond g)) (prec g hp a) && Nat.leb (g_mid g) (prec g hp b) && Nat.leb (g_cond g) (prec g hp c) &&
       wf_prec g hp a && wf_prec g hp b && wf_prec g hp c
-  | EParen e => wf_prec g hp e
+  | EParen e => wf_prec g hp e && not_double g e      (* "(double)" is the cast *)
   end.
 
 (* replace placeholder k by the k-th expression *)
@@ -277,6 +281,15 @@ Definition bind {A B} (o : option A) (k : A -> option B) : option B :=
 Definition expect (t : tok) (ts : list tok) : option (list tok) :=
   match ts with x :: r => if tok_eqb x t then Some r else None | [] => None end.
 
+(* "( double )" opens a cast; "( )" is an empty argument list *)
+Definition cast_pat (g : gram) (r : list tok) : bool :=
+  match r with
+  | TW ty :: TP q :: _ => g_cast g && bytes_eqb ty W_double && tok_eqb (TP q) RP
+  | _ => false
+  end.
+Definition starts_rp (r : list tok) : bool :=
+  match r with t :: _ => tok_eqb t RP | [] => false end.
+
 Fixpoint pexpr (g : gram) (fuel : nat) (minp : nat) (ts : list tok) {struct fuel} : option (cexpr * list tok) :=
   match fuel with
   | O => None
@@ -298,14 +311,10 @@ with pnud (g : gram) (fuel : nat) (minp : nat) (ts : list tok) {struct fuel} : o
           end
       | TP p :: r =>
           if tok_eqb (TP p) LP then
-            match r with
-            | TW ty :: TP q :: r2 =>
-                if g_cast g && bytes_eqb ty W_double && tok_eqb (TP q) RP then
-                  if Nat.ltb PCAST minp then None
-                  else bind (pexpr g f PCAST r2) (fun '(e, r') => Some (ECast e, r'))
-                else bind (pexpr g f O r) (fun '(e, r') => bind (expect RP r') (fun r'' => ppost g f (EParen e) r''))
-            | _ => bind (pexpr g f O r) (fun '(e, r') => bind (expect RP r') (fun r'' => ppost g f (EParen e) r''))
-            end
+            if cast_pat g r then
+              if Nat.ltb PCAST minp then None
+              else bind (pexpr g f PCAST (skipn 2 r)) (fun '(e, r') => Some (ECast e, r'))
+            else bind (pexpr g f O r) (fun '(e, r') => bind (expect RP r') (fun r'' => ppost g f (EParen e) r''))
           else
             match g_un g (TP p) with
             | Some q => if Nat.ltb q minp then None
@@ -321,12 +330,8 @@ with ppost (g : gram) (fuel : nat) (e : cexpr) (ts : list tok) {struct fuel} : o
       match ts with
       | TP p :: r =>
           if tok_eqb (TP p) LP then
-            match r with
-            | TP q :: r2 =>
-                if tok_eqb (TP q) RP then ppost g f (ECall0 e) r2
-                else bind (pexpr g f O r) (fun '(a, r') => bind (expect RP r') (fun r'' => ppost g f (ECall e a) r''))
-            | _ => bind (pexpr g f O r) (fun '(a, r') => bind (expect RP r') (fun r'' => ppost g f (ECall e a) r''))
-            end
+            if starts_rp r then ppost g f (ECall0 e) (tl r)
+            else bind (pexpr g f O r) (fun '(a, r') => bind (expect RP r') (fun r'' => ppost g f (ECall e a) r''))
           else Some (e, ts)
       | TW w :: r => if starts_dot w then ppost g f (EMem e w) r else Some (e, ts)
       | _ => Some (e, ts)
@@ -488,7 +493,7 @@ Definition entry_ok (f : fmt) (e : nat * bytes) : bool :=
   | Some ts, Some a =>
       forallb2 tok_eqb (toks_of g a) ts && wf_prec g hp a && Nat.leb hp (prec g hp a) && holes_lt n a &&
       (negb (match txt with c :: _ => c =? LPAR | [] => false end) || is_paren a) &&
-      negb (is_hole a)
+      negb (is_hole a) && not_double g a
   | _, _ => false
   end.
 
